@@ -495,3 +495,99 @@ class MultistageRegularRechunkingPlan(PlannerSpec):
     target = f"{RCH}:multistage_regular_rechunking_plan"
     regular = True
     bounded = MultistageRechunkingPlan.bounded
+
+
+from pyvc.arrays import make_spec  # noqa: E402
+
+
+@register
+class RechunkPlanPairs(FuncSpec):
+    """_rechunk_plan(x, chunks, min_mem, allow_irregular): the (copy_chunks, target_chunks) pairs it yields for rechunk()'s
+    loop.  The planner is used through its *contract* (PlannerSpec.ensures above, <= 2 stages); the obligations are the
+    precondition of `_rechunk` for every yielded pair and the chain clauses:
+      * at least one pair unless the array already has the requested chunking (or has no elements);
+      * every pair: target chunk within the extent; in regular mode copy % target == 0 or copy == extent
+        (`_rechunk[regular]`.requires — each copy task writes whole chunks of its target);
+      * the last pair's target is the requested chunking, so rechunk() returns an array chunked as asked."""
+
+    target = f"{OPS}:_rechunk_plan"
+    props = ("C14", "C05")
+    bounded = ("planner contract used with plans of at most 2 stages",)
+
+    def configs(self, tier):
+        out = []
+        for nd in ((1,) if tier == "quick" else (1, 2)):
+            for regular in (True, False):
+                for stages in (1, 2):
+                    out.append(dict(ndim=nd, regular=regular, stages=stages))
+        return out
+
+    def install(self, c):
+        gb.install(c)
+        S = c.interp.world.summaries
+        regular = c.cfg["regular"]
+
+        def planner(it, fn, a, k):
+            shape, src, tgt = k["shape"], k["source_chunks"], k["target_chunks"]
+            itemsize, max_mem = k["itemsize"], k["max_mem"]
+            nd = len(shape)
+            plan = []
+            for kx in range(c.cfg["stages"]):
+                pre = tuple(c.int(f"st{kx}_read{i}", lo=1) for i in range(nd))
+                post = tuple(c.int(f"st{kx}_write{i}", lo=1) for i in range(nd))
+                mid = tuple(c.min(p, q) for p, q in zip(pre, post))
+                for i in range(nd):
+                    c.assume(pre[i] <= shape[i])
+                    c.assume(post[i] <= shape[i])
+                    if regular:
+                        c.assume(c.Or(pre[i] % mid[i] == 0, pre[i] == shape[i]))
+                if plan:
+                    for i in range(nd):
+                        c.assume(pre[i] == plan[-1][2][i])
+                plan.append((pre, mid, post))
+            last = plan[-1][2]
+            for i in range(nd):
+                c.assume(c.Or(last[i] % tgt[i] == 0, last[i] == shape[i]))
+                if not regular:
+                    c.assume(plan[0][0][i] >= src[i])
+            c.planner_args = dict(shape=shape, src=src, tgt=tgt, max_mem=max_mem, itemsize=itemsize)
+            c.ctx.note_assumption("multistage planner used through its contract (PlannerSpec.ensures), plans of <= 2 stages")
+            return plan
+
+        S[f"{ALG}:multistage_rechunking_plan"] = planner
+        S[f"{RCH}:multistage_regular_rechunking_plan"] = planner
+
+    def setup(self, c):
+        nd = c.cfg["ndim"]
+        c.spec_obj = make_spec(c)
+        x = sym_array(c, "x", nd, spec=c.spec_obj)
+        tgt = tuple(c.int(f"tgt{i}", lo=1) for i in range(nd))
+        for t, n in zip(tgt, x.shape):
+            c.assume(t <= n)
+        c.x, c.tgt = x, tgt
+        return (x, tgt), dict(allow_irregular=not c.cfg["regular"])
+
+    def call(self, c, args, kwargs):
+        it = c.interp
+        fn = it.world.lookup(self.target)
+        return list(it.iterate(it.call(fn, list(args), dict(kwargs))))
+
+    def ensures(self, c, a, k, pairs):
+        x, tgt = c.x, c.tgt
+        nd = len(tgt)
+        same = c.And(*[xc == t for xc, t in zip(x.chunksize, tgt)])
+        if not pairs:
+            yield "no-copy-only-if-already-chunked-as-requested", same
+            return
+        yield "pairs-only-if-rechunking-is-needed", c.Not(same)
+        for j, (copy, target) in enumerate(pairs):
+            yield f"pair[{j}]:rank", len(copy) == nd and len(target) == nd
+            for i in range(nd):
+                yield f"pair[{j}]:target-chunk-within-extent[{i}]", c.And(target[i] >= 1, target[i] <= x.shape[i])
+                yield f"pair[{j}]:copy-chunk-within-extent[{i}]", c.And(copy[i] >= 1, copy[i] <= x.shape[i])
+                if c.cfg["regular"]:
+                    yield f"pair[{j}]:_rechunk.requires:copy-covers-whole-target-chunks[{i}]", c.Or(copy[i] % target[i] == 0, copy[i] == x.shape[i])
+        yield "last-target-is-the-requested-chunking", c.eq_tuple(pairs[-1][1], tgt)
+
+    def raises(self, c, a, k, e):
+        return None
